@@ -231,6 +231,8 @@ impl Sys {
             "std_alphabet" => right.iter().map(|c| match c { b'-' => b'+', b'_' => b'/', x => *x }).collect(),
             "truncated" => right[..right.len() - 1].to_vec(),
             "extended" => [right, b"A".to_vec()].concat(),
+            // the right challenge followed by a multiple of 256 further characters (a length compared through a narrow cast)
+            "extended256" | "extended512" | "extended768" => [right, vec![b'A'; kind[8..].parse::<usize>().unwrap()]].concat(),
             "empty" => vec![],
             "missing" => return None,
             k => panic!("chal {k}"),
@@ -441,7 +443,8 @@ fn reset_event(kseed: u64) -> Value {
 // cases
 // ---------------------------------------------------------------------------------------------
 const TYPES: [&str; 7] = ["get", "create", "upper", "space", "prefix", "empty", "missing"];
-const CHALS: [&str; 9] = ["right", "wrong", "other_payload", "padded", "std_alphabet", "truncated", "extended", "empty", "missing"];
+const CHALS: [&str; 12] = ["right", "wrong", "other_payload", "padded", "std_alphabet", "truncated", "extended", "empty", "missing",
+    "extended256", "extended512", "extended768"];
 const WSIGS: [&str; 8] = ["right", "altered_auth", "altered_client", "other_key", "garbage", "bitflip", "no_hash", "payload_only"];
 const WKEYS: [&str; 5] = ["right", "cred", "other", "bitflip", "short"];
 const PAYLOADS: [&str; 4] = ["right", "other", "short", "long"];
@@ -572,15 +575,22 @@ fn random_webauthn(r: &mut StdRng) -> Value {
         }
     }
     let flags = if r.gen_bool(0.6) { *pick(r, &[3usize, 7, 15]) } else { r.gen_range(0..16) };
-    with(wgen(), &[
-        ("type", json!(one(r, &TYPES))), ("chal", json!(one(r, &CHALS))), ("sig", json!(one(r, &WSIGS))),
+    let chal = one(r, &CHALS);
+    // (a challenge several hundred characters long leaves no room to pad the client data to a chosen length)
+    let long_chal = chal.starts_with("extended") && chal.len() > 8;
+    let mut v = with(wgen(), &[
+        ("type", json!(one(r, &TYPES))), ("chal", json!(chal)), ("sig", json!(one(r, &WSIGS))),
         ("key", json!(one(r, &WKEYS))), ("payload", json!(one(r, &PAYLOADS))),
         ("flags", json!(flags_of(flags))),
         ("xbits", json!(if r.gen_bool(0.8) { 0 } else { r.gen_range(0..256) & XMASK as i64 })),
         ("alen", json!(if r.gen_bool(0.7) { *pick(r, &[37i64, 37, 41, 77]) } else { *pick(r, &ALENS) })),
         ("clen", json!(if r.gen_bool(0.7) { *pick(r, &[0i64, 0, 400, 1024]) } else { *pick(r, &CLENS) })),
         ("layout", json!(pick(r, &LAYOUTS))),
-    ])
+    ]);
+    if long_chal {
+        v["clen"] = json!(0);
+    }
+    v
 }
 
 fn random_ed25519(r: &mut StdRng) -> Value {
